@@ -554,6 +554,21 @@ EXPR_IMPL_PINNED = {
     "=": "lambda x, y: int(x == y)",
     "and": "lambda x, y: int(bool(x) and bool(y))", "or": "lambda x, y: int(bool(x) or bool(y))",
 }
+# pinned callable -> size class of coq/C03/ExprSizeModel.v (`ecls`): what Python arithmetic guarantees about the SIZE of the result
+EXPR_SIZE_CLASS = {
+    "lambda x: -x": "CNeg", "lambda x: x": "CPos", "abs": "CAbs",
+    "lambda x: int(not bool(x))": "CBool1",
+    "math.sin": "CFloat1", "math.cos": "CFloat1", "math.asin": "CFloat1", "math.acos": "CFloat1", "math.tan": "CFloat1",
+    "math.atan": "CFloat1", "math.exp": "CFloat1", "math.log": "CFloat1",
+    "lambda x: int(math.ceil(x))": "CToInt", "lambda x: int(math.floor(x))": "CToInt", "int": "CToInt",
+    "math.pow": "CFloat2", "lambda x, y: x * math.pow(10, y)": "CFloat2", "lambda x, y: x / y": "CFloat2",
+    "lambda x, y: x * y": "CMul", "lambda x, y: x + y": "CAdd", "lambda x, y: x - y": "CSub",
+    "lambda x, y: int(x) % int(y)": "CIntMod",
+    "_myround": "CRound",
+    "lambda x, y: int(x < y)": "CBool2", "lambda x, y: int(x > y)": "CBool2", "lambda x, y: int(x <= y)": "CBool2",
+    "lambda x, y: int(x >= y)": "CBool2", "lambda x, y: int(x != y)": "CBool2", "lambda x, y: int(x == y)": "CBool2",
+    "lambda x, y: int(bool(x) and bool(y))": "CBool2", "lambda x, y: int(bool(x) or bool(y))": "CBool2",
+}
 # sha256 of the AST of the only registered callable that is defined in expr.py itself
 EXPR_MYROUND_SHA = ("b4a189197f1beec1cc4af0837b523ac722c94dcdfcf2431ed5380a1156df3048",
                     "bcc5866f3a1e881d93b2738f11e173e7354574fd334557d730d7cfcb625d32b9")
@@ -673,7 +688,7 @@ def render(info):
     L = []
     L.append("(* GENERATED by vt/gen/c03_magics.py from /repo/src/%s and %s on every run - do not edit. *)" % (MAGICS, MAGIC_NODES))
     L.append("From Coq Require Import List NArith ZArith Bool.")
-    L.append("From MW Require Import Common.Str C03.Magics.")
+    L.append("From MW Require Import Common.Str C03.Magics C03.ExprSizeModel.")
     L.append("Import ListNotations.")
     L.append("")
     L.append("(* MagicResolver.__call__: method_to_invoke(args) - number of explicit positional arguments *)")
@@ -710,6 +725,11 @@ def render(info):
     for sym in sorted(info["expr_impl"]):
         L.append("(*   %-7s %s *)" % (sym.replace("*", "(times)"), info["expr_impl"][sym].replace("*", "(times)")))
     L.append("Definition gen_expr_operators : nat := %d." % len(info["expr_impl"]))
+    L.append("(* the size class (ExprSizeModel.ecls) of each registered callable; an unknown callable has no class and fails the translator *)")
+    L.append("Definition gen_expr_classes : list (str * ecls) := [")
+    L.append(";\n".join("  (%s, %s)" % (core.coq_str(sym if sym not in ("UMinus", "UPlus") else "u" + sym[1:]), EXPR_SIZE_CLASS[info["expr_impl"][sym]])
+                        for sym in sorted(info["expr_impl"]) if info["expr_impl"][sym] in EXPR_SIZE_CLASS))
+    L.append("].")
     L.append("Definition gen_expr_impl_violations : nat := %d." % len(info["expr_impl_problems"]))
     L.append("")
     L.append("Definition dummy_names : list str := [%s]." % "; ".join(core.coq_str(n) for n in info["dummies"]))
